@@ -144,4 +144,79 @@ theorem fired_length_eq_fuel (kids : Entry → List (Rat × Nat)) (T : Rat) (fue
         omega
       · rw [loop_stop (Or.inr ⟨e, rest, hq, ht⟩)] at h; simp at h
 
+theorem fired_advance (s : Sys) (dt : Rat) : fired (advance s dt).2 = [] := by
+  unfold advance; split <;> simp [fired]
+
+/-- without raising callbacks `loopX` is `loop` -/
+theorem loopX_no_raise' (kids : Entry → List (Rat × Nat)) (T : Rat) (fuel : Nat) (s : Sys) :
+    loopX kids (fun _ => false) T fuel s = ⟨loop kids T fuel s, none⟩ := by
+  induction fuel generalizing s with
+  | zero => simp [loopX, loop]
+  | succ fuel ih =>
+    match hq : s.queue with
+    | [] => simp only [loopX, loop, hq]
+    | e :: rest =>
+      by_cases ht : e.time < T
+      · simp only [loopX, loop, hq, ht, if_true, ih, Bool.false_eq_true, if_false]
+      · simp only [loopX, loop, hq, ht, if_false]
+
+/-- the entry reported as raising does raise -/
+theorem loopX_raisedAt_raises (kids : Entry → List (Rat × Nat)) (raises : Entry → Bool) (T : Rat)
+    (fuel : Nat) (s : Sys) (e : Entry) (h : (loopX kids raises T fuel s).raisedAt = some e) :
+    raises e = true := by
+  induction fuel generalizing s with
+  | zero => simp [loopX] at h
+  | succ fuel ih =>
+    match hq : s.queue with
+    | [] => simp [loopX, hq] at h
+    | x :: rest =>
+      by_cases ht : x.time < T
+      · by_cases hr : raises x = true
+        · simp only [loopX, hq, ht, if_true, hr] at h
+          cases h; exact hr
+        · simp only [loopX, hq, ht, if_true, hr, Bool.false_eq_true, if_false] at h
+          exact ih _ h
+      · simp [loopX, hq, ht] at h
+
+/-- **The run up to a raising callback is the run of `loop` out of fuel at that callback**, with the
+raising callback doing nothing: fuel = number of callbacks called. -/
+theorem loopX_raise_eq_loop' (kids : Entry → List (Rat × Nat)) (raises : Entry → Bool) (T : Rat)
+    (fuel : Nat) (s : Sys) (e : Entry) (h : (loopX kids raises T fuel s).raisedAt = some e) :
+    (loopX kids raises T fuel s).run =
+      loop (kidsExcept kids e) T (fired (loopX kids raises T fuel s).run.trace).length s := by
+  have hre := loopX_raisedAt_raises kids raises T fuel s e h
+  induction fuel generalizing s with
+  | zero => simp [loopX] at h
+  | succ fuel ih =>
+    match hq : s.queue with
+    | [] => simp [loopX, hq] at h
+    | x :: rest =>
+      by_cases ht : x.time < T
+      · by_cases hr : raises x = true
+        · simp only [loopX, hq, ht, if_true, hr] at h ⊢
+          cases h
+          have hl : (fired ((advance { s with queue := rest } (e.time - s.t)).2 ++
+              [Event.fire e (advance { s with queue := rest } (e.time - s.t)).1.t])).length = 1 := by
+            rw [fired_append, fired_advance]; simp [fired]
+          rw [hl]
+          apply Run.ext'
+          · rw [loop_cons_status hq ht]; simp [loop]
+          · rw [loop_cons_s hq ht]; simp [loop, next, kidsExcept, addAll]
+          · rw [loop_cons_trace hq ht]; simp [loop]
+        · have hx : x ≠ e := by rintro rfl; exact hr hre
+          simp only [loopX, hq, ht, if_true, hr, Bool.false_eq_true, if_false] at h ⊢
+          have := ih _ h
+          have hl : (fired ((advance { s with queue := rest } (x.time - s.t)).2 ++
+              Event.fire x (advance { s with queue := rest } (x.time - s.t)).1.t ::
+                (loopX kids raises T fuel (addAll (advance { s with queue := rest } (x.time - s.t)).1 (kids x))).run.trace)).length =
+              (fired (loopX kids raises T fuel (addAll (advance { s with queue := rest } (x.time - s.t)).1 (kids x))).run.trace).length + 1 := by
+            rw [fired_append, fired_advance]; simp [fired]
+          rw [hl]
+          have hk : kidsExcept kids e x = kids x := by simp [kidsExcept, hx]
+          apply Run.ext'
+          · rw [loop_cons_status hq ht]; simp only [next, hk]; rw [← this]
+          · rw [loop_cons_s hq ht]; simp only [next, hk]; rw [← this]
+          · rw [loop_cons_trace hq ht]; simp only [next, hk]; rw [← this]
+      · simp [loopX, hq, ht] at h
+
 end HcipyVerif.Scheduler
